@@ -322,7 +322,53 @@ PUT_MODULE = Module(prelude="(declare-sort RID 0)", sortnames={"RID": RID}, axio
                     ufuns={"in_ids": ([Seq(RID), RID], BOOL), "pk": ([OBJ], RID), "in_db": ([RID], BOOL), "has_pk": ([Seq(OBJ), RID], BOOL), "in_objs": ([Seq(OBJ), OBJ], BOOL)}, contracts=put_contracts)
 
 
-MODULES = [(EDGE_MODULE, list(edge_contracts)), (WALK_MODULE, ["RedunBackendDb.iter_record_ids"]), (PUT_MODULE, ["RedunBackendDb.put_records"])]
+# ------------------------------------------------------------------------------------------------ RedunClient._sync_records (redun push / pull): what is walked and what is written
+def lib_exec_rows(e, n, st, old):
+    """src_backend.session.query(Execution.id).join(Job, ...).order_by(...).all(): one tuple per execution of the source"""
+    if not ast.unparse(n).startswith("src_backend.session.query(Execution.id)"):
+        return NotImplemented
+    return e.ctx.app("exec_rows", [REF], Seq(Tup(RID)), [st.env["src_backend"]])
+
+
+def lib_walk(e, n, st, old):
+    arg = e.coerce(e.ev(n.args[0], st, old), Seq(RID), "iter_record_ids argument")
+    rows = e.ctx.app("exec_rows", [REF], Seq(Tup(RID)), [st.env["src_backend"]])
+    given = e.entry.env["root_ids"]
+    all_execs = f"(and (= (seq.len {arg.s}) (seq.len {rows.s})) (forall ((j Int)) (=> (and (<= 0 j) (< j (seq.len {rows.s}))) (= (seq.nth {arg.s} j) {tup_get(T(Tup(RID), f'(seq.nth {rows.s} j)'), 0).s}))))"
+    has_given = f"(and {is_some(given).s} (> (seq.len {unopt(given).s}) 0))"
+    # the walk starts from the ids the caller gave, or -- without ids -- from EVERY execution of the source (also those the destination has already:
+    # tags and other records attached to them later must travel too)
+    e.oblige(f"{e.cur}/at[iter_record_ids-call].0", "at", st, T(BOOL, f"(ite {has_given} (= {arg.s} {unopt(given).s}) {all_execs})"), n.lineno)
+    if e.ev(n.func.value, st, old).s != st.env["src_backend"].s:
+        e.oblige(f"{e.cur}/at[iter_record_ids-call].1", "at", st, T(BOOL, "false"), n.lineno)
+    return e.ctx.app("walked", [Seq(RID)], OBJ, [arg])
+
+
+def lib_get_records(e, n, st, old):
+    arg = e.to_obj(e.ev(n.args[0], st, old))
+    e.oblige(f"{e.cur}/at[get_records-call].0", "at", st, T(BOOL, f"(and (= {e.ev(n.func.value, st, old).s} {st.env['src_backend'].s}) (exists ((s (Seq RID))) (= {arg.s} (|walked| s))))"), n.lineno)
+    return e.ctx.app("records_of", [OBJ], OBJ, [arg])
+
+
+def lib_put(e, n, st, old):
+    arg = e.to_obj(e.ev(n.args[0], st, old))
+    e.oblige(f"{e.cur}/at[put_records-call].0", "at", st, T(BOOL, f"(and (= {e.ev(n.func.value, st, old).s} {st.env['dest_backend'].s}) (exists ((w Obj)) (= {arg.s} (|records_of| w))))"), n.lineno)
+    st.ghost["put_done"] = T(BOOL, "true")
+    return e.opaque("num_records", INT)
+
+
+sync_contracts = {
+ "RedunClient._sync_records": dict(where="redun/cli.py:RedunClient._sync_records", params={"self": REF, "src_backend": REF, "dest_backend": REF, "root_ids": Opt(Seq(RID))}, returns=INT,
+    defaults={"root_ids": "None"}, ghost={"put_done": BOOL}, requires=["not put_done"], modifies=["put_done"],
+    lib={"src_backend.session.query(": lib_exec_rows, "src_backend.iter_record_ids(": lib_walk, "dest_backend.iter_record_ids(": lib_walk, "src_backend.get_records(": lib_get_records,
+         "dest_backend.get_records(": lib_get_records, "dest_backend.put_records(": lib_put, "src_backend.put_records(": lib_put},
+    # the records of the walk from those roots are read from the source and written to the destination, on every path
+    ensures=["put_done"]),
+}
+SYNC_MODULE = Module(prelude="(declare-sort RID 0)", sortnames={"RID": RID}, ufuns={"exec_rows": ([REF], Seq(Tup(RID))), "walked": ([Seq(RID)], OBJ), "records_of": ([OBJ], OBJ)}, contracts=sync_contracts)
+
+
+MODULES = [(EDGE_MODULE, list(edge_contracts)), (WALK_MODULE, ["RedunBackendDb.iter_record_ids"]), (PUT_MODULE, ["RedunBackendDb.put_records"]), (SYNC_MODULE, ["RedunClient._sync_records"])]
 
 
 def bounded_transfers(tier, seed):
